@@ -124,6 +124,7 @@ type liqSnap struct {
 	auctions map[uint64]auctypes.Auction
 	bal      map[string]sdk.Int // "module/denom"
 	limit    map[string]sdk.Int // limit-bid deposits per debt denom
+	nLimit   int                // number of limit-bid records
 }
 
 func (m *vMachine) liqSnapshot() *liqSnap {
@@ -144,7 +145,9 @@ func (m *vMachine) liqSnapshot() *liqSnap {
 			if _, ok := s.limit[da.Denom]; !ok {
 				s.limit[da.Denom] = sdk.ZeroInt()
 			}
-			s.limit[da.Denom] = s.limit[da.Denom].Add(m.limitDeposits(pd.DebtAssetId, pd.CollateralAssetId))
+			sum, n := m.limitDepositsN(pd.DebtAssetId, pd.CollateralAssetId)
+			s.limit[da.Denom] = s.limit[da.Denom].Add(sum)
+			s.nLimit += n
 		}
 	}
 	for _, a := range cfg.Assets {
@@ -208,7 +211,7 @@ func (m *vMachine) genLiqOp(rt *rapid.T, i int) (vOp, bool) {
 		kinds = append(kinds, "lbdep", "lbwd", "lbwd", "lbcancel", "bid")
 	}
 	if len(m.c.App.NewaucKeeper.GetAuctions(m.c.Ctx)) > 0 {
-		kinds = append(kinds, "bid", "bid", "bid", "bid", "bid", "block", "block")
+		kinds = append(kinds, "bid", "bid", "bid", "bid", "bid", "block", "block", "lbdep", "lbdep", "block")
 	}
 	k := rapid.SampledFrom(kinds).Draw(rt, lbl("liqkind"))
 	op := vOp{K: k, U: rapid.IntRange(0, cfg.NUsers-1).Draw(rt, lbl("user"))}
@@ -271,6 +274,31 @@ func (m *vMachine) genLiqOp(rt *rapid.T, i int) (vOp, bool) {
 		switch k {
 		case "lbdep":
 			op.A = rapid.SampledFrom([]string{"10", "1000000", "250000000"}).Draw(rt, lbl("amt"))
+			// relative to a live auction of the same asset pair: exactly its remaining debt, one less, one more
+			// (the automatic bid then closes the auction with nothing / one unit left of the deposit)
+			p := m.product(op.P)
+			var rel []auctypes.Auction
+			for _, a := range c.App.NewaucKeeper.GetAuctions(c.Ctx) {
+				if a.AuctionType && a.DebtAssetId == m.outAsset(p).ID && a.CollateralAssetId == m.inAsset(p).ID {
+					rel = append(rel, a)
+				}
+			}
+			if len(rel) > 0 && rapid.IntRange(0, 3).Draw(rt, lbl("rel")) > 0 {
+				a := rel[rapid.IntRange(0, len(rel)-1).Draw(rt, lbl("relauction"))]
+				if rapid.Bool().Draw(rt, lbl("relamt")) {
+					op.A = clampPos(a.DebtToken.Amount.AddRaw(rapid.Int64Range(-1, 1).Draw(rt, lbl("reloff")))).String()
+				}
+				// the discount the auction posts now (or will post shortly): the next blocks execute the bid
+				cur := int64(0)
+				if a.CollateralTokenOraclePrice.IsPositive() && a.CollateralTokenOraclePrice.GT(a.CollateralTokenAuctionPrice) {
+					cur = a.CollateralTokenOraclePrice.Sub(a.CollateralTokenAuctionPrice).Quo(a.CollateralTokenOraclePrice).MulInt64(100).TruncateInt64()
+				}
+				cur += int64(rapid.IntRange(0, 3).Draw(rt, lbl("relprem")))
+				if cur > 30 {
+					cur = 30
+				}
+				op.Asset = int(cur)
+			}
 		case "lbwd":
 			p := m.product(op.P)
 			dep := sdk.ZeroInt()
@@ -551,6 +579,7 @@ func (m *vMachine) liqObserve(i int, op vOp, pre *liqSnap) {
 					led.closedBy = step
 				}
 				m.nClosed++
+				m.r.Class("auction-closed:" + led.initiator)
 				if led.bids >= 2 && len(led.bidders) >= 2 {
 					m.nRichClose++
 				}
@@ -582,6 +611,24 @@ func (m *vMachine) liqObserve(i int, op vOp, pre *liqSnap) {
 			}
 		}
 		led.lastPrice = a.CollateralTokenAuctionPrice
+	}
+	if op.K == "block" {
+		// automatic limit-order bids of this block
+		reduced := false
+		for d, v := range pre.limit {
+			if w, ok := post.limit[d]; ok && w.LT(v) {
+				reduced = true
+			}
+		}
+		if reduced {
+			m.r.Class("autobid:deposits-reduced-in-block")
+			if post.nLimit < pre.nLimit {
+				m.r.Class("autobid:deposit-used-up")
+			}
+			if len(post.auctions) < len(pre.auctions) {
+				m.r.Class("autobid:block-also-closes-auction")
+			}
+		}
 	}
 	if m.prop == "C10" {
 		for _, id := range newLocked {
@@ -657,7 +704,7 @@ func (m *vMachine) auctionCustody(i int, op vOp, pre, post *liqSnap) {
 		}
 		if have := post.bal["auction/"+a.Denom]; !have.Equal(want) {
 			ctx := "after:" + op.K
-			// signature of known finding C10-F1: in this block an automatic limit-order bid met an auction
+			// signature of the former finding C10-F1 (repaired in ea1465a): in this block an automatic limit-order bid met an auction
 			// whose collateral no longer covers the debt; the app reserve paid the shortfall AND the limit
 			// bidder's deposit was reduced by the whole remaining debt, so the difference stays in custody
 			preLim, postLim := pre.limit[a.Denom], post.limit[a.Denom]
@@ -672,13 +719,19 @@ func (m *vMachine) auctionCustody(i int, op vOp, pre, post *liqSnap) {
 
 // limitDeposits sums the individual limit-bid deposits of a (debt, collateral) pair.
 func (m *vMachine) limitDeposits(debtID, collID uint64) sdk.Int {
-	sum := sdk.ZeroInt()
+	sum, _ := m.limitDepositsN(debtID, collID)
+	return sum
+}
+
+func (m *vMachine) limitDepositsN(debtID, collID uint64) (sdk.Int, int) {
+	sum, n := sdk.ZeroInt(), 0
 	for prem := int64(0); prem <= 30; prem++ {
 		if bids, ok := m.c.App.NewaucKeeper.GetUserLimitBidDataByPremium(m.c.Ctx, debtID, collID, sdk.NewInt(prem)); ok {
 			for _, b := range bids {
 				sum = sum.Add(b.DebtToken.Amount)
+				n++
 			}
 		}
 	}
-	return sum
+	return sum, n
 }
